@@ -3,6 +3,8 @@ package epochsim
 import (
 	"fmt"
 	"hash/fnv"
+	"os"
+	"runtime/debug"
 	"sort"
 	"strings"
 
@@ -17,7 +19,14 @@ import (
 	"verifsim/simkit"
 )
 
-func init() { _ = logger.SetLogLevel("*:NONE") }
+func init() {
+	_ = logger.SetLogLevel("*:NONE")
+	// a run allocates a few MB of short-lived garbage (JSON registries, list copies); with 16 worker processes of
+	// 16 Ps each the default GC pacing spends more time in futex/madvise than in the code under test
+	if os.Getenv("GOGC") == "" {
+		debug.SetGCPercent(800)
+	}
+}
 
 // offEntry is a registered key that is currently in no eligible/waiting list.
 type offEntry struct {
@@ -491,15 +500,14 @@ func (w *world) buildInfos(ref *epochLists) [][]*state.ShardValidatorInfo {
 			if r == nil || !r.listed || (r.list != string(core.EligibleList) && r.list != string(core.WaitingList)) {
 				continue
 			}
-			if !w.allowBelowMin {
-				if remaining[r.shard]-1 < w.minOf(r.shard) {
-					c.Probe("op-jail-refused-min")
-					continue
-				}
-				if r.list == string(core.EligibleList) && remainingElig[r.shard]-1 < 1 {
-					c.Probe("op-jail-refused-min")
-					continue
-				}
+			if !w.allowBelowMin && remaining[r.shard]-1 < w.minOf(r.shard) {
+				c.Probe("op-jail-refused-min")
+				continue
+			}
+			if r.list == string(core.EligibleList) && remainingElig[r.shard]-1 < 1 {
+				// a shard never loses all its eligible entries at once (the coordinator would count one shard less)
+				c.Probe("op-jail-refused-last-eligible")
+				continue
 			}
 			remaining[r.shard]--
 			if r.list == string(core.EligibleList) {
